@@ -226,6 +226,184 @@ Theorem C15_peer_action :
 Proof. exact peer_msg_sent. Qed.
 Print Assumptions C15_peer_action.
 
+(* ---- closest responsive peers ---- *)
+
+(* FIND_NODE-type success (FIND_NODE, and the lookup phase of PUT_VALUE / ADD_PROVIDER): the reported
+   list is EXACTLY the k closest of all peers that responded (all of them if fewer responded), and
+   every other peer the lookup ever learned of that is closer than the furthest reported one was
+   contacted and did not respond *)
+Theorem C15_closest_responsive :
+  forall c seeds es now l,
+  dist_inj c -> ~ In (c_local c) seeds -> c_kind c = KFind ->
+  let s := fst (grun c (init c seeds) (ghost0 seeds) es) in
+  let g := snd (grun c (init c seeds) (ghost0 seeds) es) in
+  snd (next_action c s now) = AFound l ->
+  kclosest c (c_k c) (g_answered g) l /\
+  (forall p w, In p (g_known g) -> p <> c_local c -> ~ In p l -> last_opt l = Some w ->
+               c_dist c p < c_dist c w -> In p (g_sent g) /\ ~ In p (g_answered g)).
+Proof. exact closest_responsive_reach. Qed.
+Print Assumptions C15_closest_responsive.
+
+(* "the k closest of ans" determines the list: there is exactly one such list *)
+Theorem C15_kclosest_unique :
+  forall c k ans l1 l2, kclosest c k ans l1 -> kclosest c k ans l2 -> l1 = l2.
+Proof. exact kclosest_unique. Qed.
+Print Assumptions C15_kclosest_unique.
+
+(* Interface for the send phase (C16): what FindNodeQuerySucceeded / PutRecordToFoundNodes /
+   AddProviderToFoundNodes hand over — distinct peers, never the local one, every one of them
+   contacted and responsive, at most k, exactly the k closest responders, and not empty (k >= 1) *)
+Theorem C15_lookup_interface :
+  forall c seeds es now l,
+  dist_inj c -> ~ In (c_local c) seeds -> c_kind c = KFind ->
+  let s := fst (grun c (init c seeds) (ghost0 seeds) es) in
+  let g := snd (grun c (init c seeds) (ghost0 seeds) es) in
+  snd (next_action c s now) = AFound l ->
+  NoDup l /\ ~ In (c_local c) l /\ N.of_nat (length l) <= c_k c /\
+  (forall p, In p l -> In p (g_answered g) /\ In p (g_sent g)) /\
+  kclosest c (c_k c) (g_answered g) l /\
+  (1 <= c_k c -> l <> []).
+Proof. exact lookup_interface. Qed.
+Print Assumptions C15_lookup_interface.
+
+(* every lookup (all kinds) always contacts the closest peer it knows of and has not contacted yet *)
+Theorem C15_send_closest :
+  forall c seeds es now p,
+  dist_inj c -> ~ In (c_local c) seeds ->
+  let s := fst (grun c (init c seeds) (ghost0 seeds) es) in
+  let g := snd (grun c (init c seeds) (ghost0 seeds) es) in
+  snd (next_action c s now) = ASend p ->
+  In p (g_known g) /\ ~ In p (g_sent g) /\ p <> c_local c /\
+  forall q, In q (g_known g) -> q <> c_local c -> ~ In q (g_sent g) -> c_dist c p <= c_dist c q.
+Proof. exact send_closest_reach. Qed.
+Print Assumptions C15_send_closest.
+
+(* QueryFailed (any kind) is reported only when every peer the lookup learned of was tried, nothing
+   is outstanding, and nothing at all was obtained: no responder (FIND_NODE-type), no record — not
+   even a local one (GET_VALUE), no provider — not even a locally known one (GET_PROVIDERS) *)
+Theorem C15_failed_means_nothing :
+  forall c seeds es now,
+  dist_inj c -> ~ In (c_local c) seeds ->
+  let s := fst (grun c (init c seeds) (ghost0 seeds) es) in
+  let g := snd (grun c (init c seeds) (ghost0 seeds) es) in
+  snd (next_action c s now) = AFailed ->
+  exhausted_at c s g /\
+  match c_kind c with
+  | KFind => g_answered g = [] \/ c_k c = 0
+  | KRecord => c_known c = 0 /\ g_got g = []
+  | KProviders => c_kprov c = [] /\ g_provs g = []
+  end.
+Proof. exact failed_reach. Qed.
+Print Assumptions C15_failed_means_nothing.
+
+(* GET_VALUE quorum honesty: success means the quorum is really met — the local record counted
+   once plus the records received from distinct peers — or that every learned peer was tried and
+   at least one record exists *)
+Theorem C15_record_quorum_honest :
+  forall c seeds es now,
+  dist_inj c -> ~ In (c_local c) seeds ->
+  let s := fst (grun c (init c seeds) (ghost0 seeds) es) in
+  let g := snd (grun c (init c seeds) (ghost0 seeds) es) in
+  snd (next_action c s now) = ARecDone ->
+  c_needed c <= c_known c + N.of_nat (length (g_got g)) \/
+  (exhausted_at c s g /\ 1 <= c_known c + N.of_nat (length (g_got g))).
+Proof. exact recdone_reach. Qed.
+Print Assumptions C15_record_quorum_honest.
+
+(* GET_PROVIDERS reports only after every learned peer was tried: the result (C15_providers_result,
+   C15_merge_spec) contains what every responsive peer reported plus the locally known providers *)
+Theorem C15_providers_exhaustive :
+  forall c seeds es now l,
+  dist_inj c -> ~ In (c_local c) seeds ->
+  let s := fst (grun c (init c seeds) (ghost0 seeds) es) in
+  let g := snd (grun c (init c seeds) (ghost0 seeds) es) in
+  snd (next_action c s now) = AProvDone l -> exhausted_at c s g.
+Proof. exact provdone_reach. Qed.
+Print Assumptions C15_providers_exhaustive.
+
+(* ---- request timeouts ---- *)
+
+(* A request is resolved at most once: after an accepted answer or failure (from the peer, from the
+   executor's timeout, from a disconnect) everything that arrives for that peer later is ignored —
+   in particular a late answer after the timeout failure. (The engine's own peer timeout does not
+   fail a request: it only stops counting it against alpha, see C15_parallelism; an answer that
+   arrives after it but before a failure is an ordinary answer.) *)
+Theorem C15_resolved_once :
+  forall c s p e es r,
+  Inv c s -> effective s p = true -> (e = EFail p \/ exists r0, e = EResp p r0) ->
+  let s1 := fst (run c (fst (step c s e)) es) in
+  effective s1 p = false /\ on_response c s1 p r = s1 /\ on_failure c s1 p = s1.
+Proof. exact resolved_once. Qed.
+Print Assumptions C15_resolved_once.
+
+(* Termination in bounded time WITHOUT assuming that anybody answers. `tdrive` is the engine in
+   logical time together with a completely arbitrary network E (answers with any content, failures,
+   silence) and the executor rule "a request outstanding for more than T time units is failed".
+   For every such network, over a universe of n peers the lookup has emitted exactly one terminal
+   action after at most (T+1)*n time units (n sequential round trips is the worst case: a chain in
+   which every peer only knows the next one defeats both k and alpha), the times of the produced
+   history are monotone (so the parallelism bound applies to it). *)
+Theorem C15_timed_termination :
+  forall c U E T seeds ticks pf,
+  1 <= c_alpha c -> ~ In (c_local c) seeds -> (forall p, In p seeds -> In p U) -> net_in U E ->
+  (2 * length U + 1 <= pf)%nat -> ((N.to_nat T + 1) * length U + 1 <= ticks)%nat ->
+  let es := tdrive ticks pf c E T 0 (init c seeds) in
+  done (fst (run c (init c seeds) es)) = true /\
+  length (terminals (snd (run c (init c seeds) es))) = 1%nat /\
+  mono 0 es /\
+  (N.to_nat (clock 0 es) <= (N.to_nat T + 1) * length U)%nat.
+Proof. exact timed_termination. Qed.
+Print Assumptions C15_timed_termination.
+
+(* ---- isolation of the queries of a shared engine ---- *)
+
+(* the counter pending_responses is written before it is read: two states that differ only in it
+   behave identically *)
+Theorem C15_pr_irrelevant :
+  forall c s s' e,
+  peq s s' -> peq (fst (step c s e)) (fst (step c s' e)) /\ snd (step c s e) = snd (step c s' e).
+Proof. exact step_peq. Qed.
+Print Assumptions C15_pr_irrelevant.
+
+(* an engine step that does not reach query i leaves query i untouched *)
+Theorem C15_frame :
+  forall eng m i c s,
+  nth_error eng i = Some (c, s) -> events_of i (snd (mstep eng m)) = [] ->
+  nth_error (fst (fst (mstep eng m))) i = Some (c, s).
+Proof. exact mstep_frame. Qed.
+Print Assumptions C15_frame.
+
+(* for every polling order and every traffic of the other queries: query i ends (up to the
+   irrelevant counter) in the state it reaches alone on its own essential events — the events
+   addressed to it and the polls in which it acted *)
+Theorem C15_query_isolation :
+  forall ms eng i c s,
+  nth_error eng i = Some (c, s) ->
+  exists s', nth_error (fst (mrun eng ms)) i = Some (c, s') /\
+             peq s' (fst (run c s (essential c s (events_of i (snd (mrun eng ms)))))).
+Proof. exact query_isolation. Qed.
+Print Assumptions C15_query_isolation.
+
+(* dropping the polls that returned nothing changes neither the state nor the visible actions *)
+Theorem C15_essential :
+  forall c es s s',
+  peq s s' ->
+  peq (fst (run c s es)) (fst (run c s' (essential c s es))) /\
+  visible (snd (run c s es)) = visible (snd (run c s' (essential c s es))).
+Proof. exact essential_equiv. Qed.
+Print Assumptions C15_essential.
+
+(* two runs of a shared engine with different polling orders / different traffic for the other
+   queries that bring the same essential events to query i leave it in the same state *)
+Theorem C15_order_irrelevant :
+  forall ms1 ms2 eng1 eng2 i c s,
+  nth_error eng1 i = Some (c, s) -> nth_error eng2 i = Some (c, s) ->
+  essential c s (events_of i (snd (mrun eng1 ms1))) = essential c s (events_of i (snd (mrun eng2 ms2))) ->
+  exists s1 s2, nth_error (fst (mrun eng1 ms1)) i = Some (c, s1) /\
+                nth_error (fst (mrun eng2 ms2)) i = Some (c, s2) /\ peq s1 s2.
+Proof. exact order_irrelevant. Qed.
+Print Assumptions C15_order_irrelevant.
+
 (* the history fields are functions of the emitted actions: g_sent is the list of SendMessage peers *)
 Theorem C15_sent_is_sends :
   forall c es s g, g_sent (snd (grun c s g es)) = g_sent g ++ sends (snd (run c s es)).
@@ -255,3 +433,12 @@ Example C15_closed_loop_nonvacuous :
   snd (run c (init c [1; 2; 3]) (drive 34 c env_fail_all false (init c [1; 2; 3]))) =
     [ASend 1; ASend 2; ANone; ANone; ASend 3; ANone; ANone; ANone; ANone; AFailed].
 Proof. vm_compute. reflexivity. Qed.
+
+(* non-vacuity of the timed loop: FIND_NODE (k = 2, alpha = 1, request timeout 2) over a chain of
+   three silent peers known from the start: three sequential timeouts, then QueryFailed at time 9 *)
+Example C15_timed_nonvacuous :
+  let c := mkCfg KFind 2 1 5 0 0 0 [] (fun p => p) in
+  let es := tdrive 40 9 c (mkTenv (fun _ _ => [])) 2 0 (init c [1; 2; 3]) in
+  visible (snd (run c (init c [1; 2; 3]) es)) = [ASend 1; ASend 2; ASend 3; AFailed] /\
+  clock 0 es = 9.
+Proof. vm_compute. split; reflexivity. Qed.
